@@ -1,16 +1,16 @@
 //! r6: context field reads. `ctx_set!` generates, for four field types, the
 //! 24 `#[repr(C)]` structs with the fields declared in every order plus one
 //! struct with the default representation, each with `#[derive(Context)]`.
-//! A script `fn g<j>() -> F<j> { <field j> }` reads every field; the value must
-//! be the one Rust stored.
+//! A script function reads every field and hands it to a host sink; each sink
+//! must see the value Rust stored in that field.
 
 use std::marker::PhantomData;
 
-use roto::{Context, FileTree, Runtime, Value as RotoValue};
+use roto::{Context, FileTree, Runtime};
 use vcore::util::catch;
 use vcore::{Cx, SUB_SETUP, Tier, Value, json};
 
-use crate::routes::{edges, set_tier};
+use crate::routes::{edges, reg_sink, set_tier, take_log};
 use crate::ty::B;
 
 pub const R6: u64 = 6;
@@ -27,57 +27,23 @@ pub trait CtxSpec: Context + 'static {
     fn offsets() -> [usize; 4];
 }
 
+fn tys<S: CtxSpec>() -> [String; 4] {
+    [S::F0::roto(), S::F1::roto(), S::F2::roto(), S::F3::roto()]
+}
+fn ids<S: CtxSpec>() -> [String; 4] {
+    [S::F0::id(), S::F1::id(), S::F2::id(), S::F3::id()]
+}
+
+/// every field is read by the script and handed to a host sink
 pub fn script<S: CtxSpec>() -> String {
-    let tys = [S::F0::roto(), S::F1::roto(), S::F2::roto(), S::F3::roto()];
-    (0..4).map(|j| format!("fn g{j}() -> {} {{\n    {}\n}}\n", tys[j], S::FIELDS[j])).collect()
+    let ids = ids::<S>();
+    let body: String = (0..4).map(|j| format!("    snk_{}({});\n", ids[j], S::FIELDS[j])).collect();
+    format!("fn g() {{\n{body}}}\n")
 }
 
-fn case<S: CtxSpec>(field: usize, idx: usize, value: &str) -> Value {
-    let tys = [S::F0::roto(), S::F1::roto(), S::F2::roto(), S::F3::roto()];
-    json!({"route": "r6", "struct": S::DECL, "field": S::FIELDS.get(field), "field_index": field,
-           "ty": tys.get(field), "field_types": tys, "offsets": S::offsets(), "value_index": idx,
-           "value": value, "script": script::<S>()})
-}
-
-macro_rules! field_loop {
-    ($cx:expr, $pkg:expr, $S:ty, $j:literal, $F:ty, $n:expr, $mk:expr, $e:expr) => {{
-        match $pkg.get_function::<fn() -> $F>(concat!("g", $j)) {
-            Err(e) => $cx.violation(
-                "get_function",
-                (R6 << 44) | (($j as u64) << 36),
-                case::<$S>($j, 0, ""),
-                json!("Ok"),
-                json!(e.to_string().chars().take(300).collect::<String>()),
-            ),
-            Ok(func) => {
-                let mut h = 0u64;
-                let mut n = 0u64;
-                for i in 0..$n {
-                    let s = (R6 << 44) | (($j as u64) << 36) | i as u64;
-                    if !$cx.case(s) {
-                        continue;
-                    }
-                    let mut c: $S = $mk(i);
-                    let want: String = $e[i % $e.len()].show();
-                    let r = func.call(&mut c);
-                    let got = r.show();
-                    drop(r);
-                    drop(c);
-                    n += 1;
-                    h = vcore::util::mix(h, vcore::util::fnv_str(&got));
-                    if got != want {
-                        $cx.violation("mismatch", s, case::<$S>($j, i, &want), json!({"read": want}), json!({"read": got}));
-                    }
-                }
-                $cx.states(n);
-                $cx.transitions(n);
-                $cx.validated(n);
-                $cx.count("calls_r6", n);
-                $cx.outcome(h);
-                $cx.nontrivial(vcore::util::mix(vcore::util::fnv_str(<$S>::DECL), $j as u64));
-            }
-        }
-    }};
+fn case<S: CtxSpec>(idx: usize, values: &[String]) -> Value {
+    json!({"route": "r6", "struct": S::DECL, "fields": S::FIELDS, "field_types": tys::<S>(),
+           "offsets": S::offsets(), "value_index": idx, "values": values, "script": script::<S>()})
 }
 
 pub fn run<S: CtxSpec>(cx: &mut Cx) {
@@ -86,18 +52,29 @@ pub fn run<S: CtxSpec>(cx: &mut Cx) {
     if !cx.case(SUB_SETUP) {
         return;
     }
-    // the field types must be known to the global type registry
-    <S::F0 as RotoValue>::resolve();
-    <S::F1 as RotoValue>::resolve();
-    <S::F2 as RotoValue>::resolve();
-    <S::F3 as RotoValue>::resolve();
+    let mut items = vec![];
+    let mut seen: Vec<String> = vec![];
+    macro_rules! sink {
+        ($F:ty) => {
+            // also makes the field type known to the global type registry
+            if !seen.contains(&<$F>::id()) {
+                seen.push(<$F>::id());
+                reg_sink::<$F>(&mut items);
+            }
+        };
+    }
+    sink!(S::F0);
+    sink!(S::F1);
+    sink!(S::F2);
+    sink!(S::F3);
     let rt = match Runtime::from_lib(host::lib())
+        .and_then(|mut rt| rt.add(items).map(|_| rt))
         .map_err(|e| e.to_string())
         .and_then(|rt| rt.with_context_type::<S>())
     {
         Ok(rt) => rt,
         Err(e) => {
-            cx.violation("register", SUB_SETUP, case::<S>(9, 0, ""), json!("Ok"), json!(e));
+            cx.violation("register", SUB_SETUP, case::<S>(0, &[]), json!("Ok"), json!(e));
             return;
         }
     };
@@ -108,36 +85,68 @@ pub fn run<S: CtxSpec>(cx: &mut Cx) {
             let mut s = String::new();
             let _ = catch(|| r.write(&mut s, false));
             let s: String = s.chars().take(600).collect();
-            cx.violation("compile", SUB_SETUP, case::<S>(9, 0, ""), json!("compiles"), json!(s));
+            cx.violation("compile", SUB_SETUP, case::<S>(0, &[]), json!("compiles"), json!(s));
             return;
         }
         Err(p) => {
-            cx.violation("compile-panic", SUB_SETUP, case::<S>(9, 0, ""), json!("compiles"), json!(p));
+            cx.violation("compile-panic", SUB_SETUP, case::<S>(0, &[]), json!("compiles"), json!(p));
             return;
         }
     };
     let before = crate::routes::anomalies_now();
     let (e0, e1, e2, e3) = (edges::<S::F0>(t), edges::<S::F1>(t), edges::<S::F2>(t), edges::<S::F3>(t));
     let n = e0.len().max(e1.len()).max(e2.len()).max(e3.len());
-    let mk = |i: usize| {
-        S::make(
-            e0[i % e0.len()].clone(),
-            e1[i % e1.len()].clone(),
-            e2[i % e2.len()].clone(),
-            e3[i % e3.len()].clone(),
-        )
-    };
-    cx.sample(json!({"route": "r6", "struct": S::DECL, "offsets": S::offsets(), "cases_per_field": n, "script": src}));
-    field_loop!(cx, pkg, S, 0, S::F0, n, mk, e0);
-    field_loop!(cx, pkg, S, 1, S::F1, n, mk, e1);
-    field_loop!(cx, pkg, S, 2, S::F2, n, mk, e2);
-    field_loop!(cx, pkg, S, 3, S::F3, n, mk, e3);
+    cx.sample(json!({"route": "r6", "struct": S::DECL, "offsets": S::offsets(), "cases": n, "script": src}));
+    match pkg.get_function::<fn() -> ()>("g") {
+        Err(e) => cx.violation(
+            "get_function",
+            R6 << 44,
+            case::<S>(0, &[]),
+            json!("Ok"),
+            json!(e.to_string().chars().take(300).collect::<String>()),
+        ),
+        Ok(func) => {
+            let mut h = 0u64;
+            let mut cnt = 0u64;
+            for i in 0..n {
+                let s = (R6 << 44) | i as u64;
+                if !cx.case(s) {
+                    continue;
+                }
+                let (v0, v1, v2, v3) = (&e0[i % e0.len()], &e1[i % e1.len()], &e2[i % e2.len()], &e3[i % e3.len()]);
+                let want = vec![v0.show(), v1.show(), v2.show(), v3.show()];
+                let mut c = S::make(v0.clone(), v1.clone(), v2.clone(), v3.clone());
+                take_log();
+                func.call(&mut c);
+                let got = take_log();
+                drop(c);
+                cnt += 1;
+                for g in &got {
+                    h = vcore::util::mix(h, vcore::util::fnv_str(g));
+                }
+                if got != want {
+                    let bad: Vec<&str> =
+                        (0..4).filter(|j| got.get(*j) != want.get(*j)).map(|j| S::FIELDS[j]).collect();
+                    let mut cj = case::<S>(i, &want);
+                    cj["fields_wrong"] = json!(bad);
+                    cx.violation("mismatch", s, cj, json!({"sinks_saw": want}), json!({"sinks_saw": got}));
+                }
+            }
+            cx.states(cnt * 4);
+            cx.transitions(cnt);
+            cx.validated(cnt * 4);
+            cx.count("calls_r6", cnt);
+            cx.count("field_reads_r6", cnt * 4);
+            cx.outcome(h);
+            cx.nontrivial(vcore::util::fnv_str(S::DECL));
+        }
+    }
     let g = crate::routes::garbage_since(before);
     if !g.is_empty() {
         cx.violation(
             "garbage",
             SUB_SETUP,
-            case::<S>(9, 0, ""),
+            case::<S>(0, &[]),
             json!("no tracked value is read from memory that never held one"),
             json!(g.into_iter().take(5).collect::<Vec<_>>()),
         );
@@ -148,29 +157,14 @@ pub fn run<S: CtxSpec>(cx: &mut Cx) {
 
 pub fn describe<S: CtxSpec>(t: Tier, s: u64) -> Value {
     if s == SUB_SETUP {
-        return case::<S>(9, 0, "");
+        return case::<S>(0, &[]);
     }
-    let j = ((s >> 36) & 0xff) as usize;
     let i = (s & ((1 << 36) - 1)) as usize;
-    let v = match j {
-        0 => {
-            let e = S::F0::edges(t);
-            e[i % e.len()].show()
-        }
-        1 => {
-            let e = S::F1::edges(t);
-            e[i % e.len()].show()
-        }
-        2 => {
-            let e = S::F2::edges(t);
-            e[i % e.len()].show()
-        }
-        _ => {
-            let e = S::F3::edges(t);
-            e[i % e.len()].show()
-        }
+    let want: Vec<String> = {
+        let (e0, e1, e2, e3) = (S::F0::edges(t), S::F1::edges(t), S::F2::edges(t), S::F3::edges(t));
+        vec![e0[i % e0.len()].show(), e1[i % e1.len()].show(), e2[i % e2.len()].show(), e3[i % e3.len()].show()]
     };
-    case::<S>(j, i, &v)
+    case::<S>(i, &want)
 }
 
 pub trait CtxEntry: Send + Sync {
